@@ -1428,7 +1428,8 @@ OPTION_STRATA = (
                              'Divergence-domain-only', 'Sampling-single-nd-point',
                              'Sampling-nested-1d', 'Sampling-int', 'Resizing-explicit-range',
                              'Resizing-range-const-weight', 'Resizing-range-array-weight',
-                             'Resizing-nodes-on-bdry', 'Fourier-inverse-property',
+                             'Resizing-nodes-on-bdry', 'Resizing-discr-kwargs',
+                             'Fourier-inverse-property',
                              'Fourier-temporaries', 'Fourier-pyfftw', 'Fourier-pyfftw-plan',
                              'Wavelet-nodes-on-bdry', 'Wavelet-odd-axis',
                              'Wavelet-array-weighting')] +
@@ -1509,6 +1510,24 @@ def option_cases(ctx, rng, mk):
                 lambda mode=mode: odl.ResizingOperator(Db, ran_shp=(6,), pad_mode=mode))
         yield o('Resizing-nodes-on-bdry', 'ResizingOperator', 'nodes-on-bdry shrink mode=' + mode,
                 lambda mode=mode: odl.ResizingOperator(Db, ran_shp=(3,), pad_mode=mode))
+    # round 6: `discr_kwargs` of ResizingOperator -> _resize_discr (nodes_on_bdry as bool, as a
+    # pair for one axis, per axis with mixed bools and pairs): the range grid, hence the weights
+    # of the range inner product and the boundary-cell scaling of the adjoint, depend on them
+    nb = [('bool extend constant', D, dict(ran_shp=(6,), discr_kwargs={'nodes_on_bdry': True})),
+          ('bool extend symmetric', D, dict(ran_shp=(6,), pad_mode='symmetric',
+                                            discr_kwargs={'nodes_on_bdry': True})),
+          ('pair extend offset', D, dict(ran_shp=(7,), offset=(1,),
+                                         discr_kwargs={'nodes_on_bdry': (True, False)})),
+          ('pair shrink', D, dict(ran_shp=(3,), discr_kwargs={'nodes_on_bdry': (False, True)})),
+          ('per-axis 2d order0', D2, dict(ran_shp=(4, 5), pad_mode='order0',
+                                          discr_kwargs={'nodes_on_bdry': [(True, False), False]})),
+          ('per-axis 2d periodic', D2, dict(ran_shp=(4, 5), pad_mode='periodic',
+                                            discr_kwargs={'nodes_on_bdry': [(True, False), True]}))]
+    for tag, dom_, kw in nb:
+        yield o('Resizing-discr-kwargs', 'ResizingOperator', 'discr_kwargs nodes_on_bdry ' + tag,
+                lambda dom_=dom_, kw=kw: odl.ResizingOperator(dom_, **kw))
+        yield o('Resizing-discr-kwargs', 'ResizingOperatorAdjoint', 'discr_kwargs nodes_on_bdry ' + tag,
+                lambda dom_=dom_, kw=kw: odl.ResizingOperator(dom_, **kw).adjoint)
     tr = odl.trafos
 
     def ft_temp():
@@ -1596,6 +1615,9 @@ def option_cases(ctx, rng, mk):
         ('Resizing', 'offset with explicit range', lambda: odl.ResizingOperator(D, Dbig, offset=(1,)), (VE,)),
         ('Resizing', 'range and ran_shp', lambda: odl.ResizingOperator(D, Dbig, ran_shp=(8,)), (VE,)),
         ('Resizing', 'domain not discretized', lambda: odl.ResizingOperator(odl.rn(3), ran_shp=(4,)), (TE,)),
+        ('Resizing', 'nodes_on_bdry list of wrong length',
+         lambda: odl.ResizingOperator(D2, ran_shp=(4, 5), discr_kwargs={'nodes_on_bdry': [True, False, True]}),
+         (VE,)),
         ('Resizing', 'range with other cell sides',
          lambda: odl.ResizingOperator(D, odl.uniform_discr(0, 8, 8)), (VE,)),
         ('MatrixOperator', 'non-integer axis',
